@@ -6,7 +6,9 @@ space over the boundary-directed length relations {0,1,2,3,n-1,n,n+1,2n} is enum
 Conformance (Trace_Api): harness/misuse_drv.cpp executes ~4 400 call cases per base length (n = 7 and 16: primes,
 composites and power-of-two plans) covering the operators, comparisons, index lists with entries from -n..n+2 and empty
 lists, slice right-hand sides of every length, plans applied to other lengths, filters, resamplers, windows, designs,
-spectra, detector, dynamics, prime helpers at the word boundaries — each in a forked child of the ASan+UBSan build
+spectra, detector, dynamics, prime helpers at the word boundaries, slice requests at every
+boundary index with steps +-1, +-2 (rejection rule of Slice.tla), printing, and NaN / +Inf / -Inf sample values into 24 groups
+of entry points — each in a forked child of the ASan+UBSan build
 (NDEBUG, so DSPLIB_ASSUME is live) and of the rel build under a 20 s alarm; an ASan/UBSan report, a signal or a timeout
 is an outcome outside the alphabet and the trace is rejected at that call.  Memory safety and UB freedom are observed
 by the sanitizers on spec-enumerated executions, not derived from the model (DESIGN.md section 8)."""
